@@ -131,7 +131,8 @@ CHECKS['C05'] = dict(
               'OnePerGoodRow / RowLocal / BadRowsIrrelevant / SignLaw / NegateIsMirror / HeaderSkipsExactlyOne on every table of the bounded '
               'universe; every state is rendered to CSV bytes (delimiter, quoting, line ending varied) and read by parse_format_string + '
               'parse_generic_csv; code -> spec: random tables / layouts / settings read by the real code, the cells of the file abstracted from the '
-              'own csv reading of the harness, validated by Trace_Rows.tla (Rows!Parse must give the observed transactions; tamper control)',
+              'own csv reading of the harness, validated by Trace_Rows.tla (Rows!Parse must give the observed transactions; tamper control); conformance information only: '
+              'LegacyParsers.tla / Trace_LegacyParsers.tla for the deprecated parse_amex / parse_boa readers',
     text='Exhaustive within bounds: each vocabulary cell (every malformation named in the property) in each position, every layout, sign '
          'mode, decimal convention and header setting; the real parser output is compared field by field with the spec.',
     note='cell vocabulary restricted to texts whose reading the statement fixes; location compared only when the column is filled',
